@@ -40,6 +40,9 @@ func init() {
 	register(&Rule{ID: "C03.11", Prop: "C03", Min: 5,
 		Text: "a failed reply write has sent nothing: in every buffered protocol's Pack, once the frame has been handed to the connection the only error that can still be returned is that Write's own - handleCall answers a failed writeReply with a fallback error reply, so a Pack that fails after writing makes the caller see two replies",
 		Run:  runC03_11})
+	register(&Rule{ID: "C03.12", Prop: "C03", Min: 2,
+		Text: "a call the read loop cannot dispatch is refused, not dropped: on the edge where Go() refuses the handler goroutine every path passes a call into a function that, for a CALL (Mtype() == TypeCall), reaches writeReply with a non-OK status on every path - the caller gets an error reply instead of waiting for ever on a live connection",
+		Run:  runC03_12})
 	register(&Rule{ID: "C03.9", Prop: "C03", Min: 2,
 		Text: "read-error classification in the read loop: a read error with a nil body codec, or a session that left the readable states, ends the loop (disconnect); any other read error is stored in ctx.stat before the message is dispatched",
 		Run:  runC03_9})
@@ -1069,4 +1072,77 @@ func runC03_11(c *Ctx) {
 	if n < 5 {
 		c.Undec("buffered protocol writes", "", fmt.Sprintf("found %d, expected >= 5", n))
 	}
+}
+
+func runC03_12(c *Ctx) {
+	p := c.P
+	loop := p.Fn(Root, "session", "startReadAndHandle")
+	goF := p.FuncObj(Root, "Go")
+	writeReply := p.MethodObj(Root, "handlerCtx", "writeReply")
+	mtype := p.MethodObj(Root+"/socket", "Header", "Mtype")
+	typeCall := p.ConstInt(Root, "TypeCall")
+	edges := CondCallEdges(loop, goF)
+	if len(edges) != 1 {
+		c.Undec("dispatch refusal edge", p.Pos(loop.Pos()), fmt.Sprintf("expected one `if !Go(...)`, found %d", len(edges)))
+		return
+	}
+	// refusers: functions of the root package that answer a CALL
+	answers := func(fn *ssa.Function) (bool, string) {
+		if fn == nil || len(fn.Blocks) == 0 {
+			return false, ""
+		}
+		wr := p.callsReaching(fn, writeReply)
+		if len(wr) == 0 {
+			return false, ""
+		}
+		// from the edge Mtype() == TypeCall every path passes such a call, with a non-OK argument when it is writeReply itself
+		for _, ee := range EqEdges(fn) {
+			call, isC := ee.X.(*ssa.Call)
+			k, okc := ConstIntOf(ee.Y)
+			if !isC || !okc || CalleeObj(call) != mtype || k != typeCall {
+				continue
+			}
+			w := &Walk{P: p, Stop: func(i ssa.Instruction) bool {
+				for _, x := range wr {
+					if i == ssa.Instruction(x) {
+						if _, isCall := i.(*ssa.Call); isCall {
+							return true
+						}
+					}
+				}
+				return false
+			}}
+			w.FromBlock(ee.Eq)
+			if len(w.Exits) == 0 && len(w.Hits) > 0 {
+				// the status handed to writeReply is not nil
+				for _, h := range w.Hits {
+					if hc, ok := h.(*ssa.Call); ok && CalleeObj(hc) == writeReply && IsNilConst(CallArgs(hc)[0]) {
+						return false, "writeReply(nil)"
+					}
+				}
+				return true, FnName(fn)
+			}
+		}
+		return false, ""
+	}
+	var refuser string
+	w := &Walk{P: p, Stop: func(i ssa.Instruction) bool {
+		call, ok := i.(*ssa.Call)
+		if !ok {
+			return false
+		}
+		if ok, name := answers(call.Call.StaticCallee()); ok {
+			refuser = name
+			return true
+		}
+		return false
+	}}
+	w.FromBlock(edges[0].False)
+	c.fact("must-pass")
+	var path []string
+	for _, e := range w.Exits {
+		path = append(path, "leaves the refusal edge without answering: "+p.InstrPos(e))
+	}
+	c.Check(len(w.Exits) == 0 && len(w.Hits) > 0, "Go() refused: a CALL is answered", p.InstrPos(edges[0].If), "every path of the refusal edge passes "+refuser, "when the goroutine pool refuses the handler the read loop drops the message: a CALL is never answered although the connection stays up (the caller hangs until its own timeout, if any)", path...)
+	c.Check(refuser != "", "the refuser answers exactly CALLs with an error", p.Pos(loop.Pos()), refuser+": on Mtype() == TypeCall every path reaches writeReply with a status", "no function on the refusal edge answers a CALL with an error reply")
 }
